@@ -12,6 +12,7 @@ Known findings: D5 (BODYSTRUCTURE octets include the part header), D6 (maildir s
 from __future__ import annotations
 import asyncio
 import random
+import re
 
 from .common import gen, imapresp, wire, backends
 from .common.model import Model, nats
@@ -110,6 +111,99 @@ async def l3_backend(part, kind, msgs, r):
                 c = await connect(False)
     finally:
         await c.eof()
+        if base:
+            backends.rmtree(base)
+
+
+async def l3_two_sessions(part, kind, msgs, r):
+    """the bytes returned under a UID are the bytes appended under that UID - also while another session removes and changes messages:
+    session A fetches whole ranges (by UID and by number) with a stale view, session B expunges and flags in between"""
+    base = None
+    if kind == 'dict':
+        backend, config = await backends.make_dict(users=[('alice', 'pw', ())])
+        login = backend.login
+        userpw = b'alice pw'
+    else:
+        base = backends.scratch_dir()
+        config, login = await backends.make_maildir(base, layout=r.choice(['++', 'fs']))
+        userpw = b'alice pwalice'
+    from pymap.imap import IMAPServer
+    srv = IMAPServer(login, config)
+    try:
+        async def connect():
+            c = wire.Client(srv)
+            await c.start()
+            await c.send(b'a LOGIN ' + userpw + b'\r\n')
+            return c
+        a, b = await connect(), await connect()
+        stored = {}
+        for m_ in msgs:
+            raw = await a.send(b'a APPEND INBOX {%d+}\r\n' % len(m_) + m_ + b'\r\n')
+            mt = re.search(rb'APPENDUID \d+ (\d+)', raw)
+            if mt:
+                stored[int(mt.group(1))] = m_ if kind == 'dict' else expected_store(kind, m_)
+        if len(stored) < 3:
+            return
+        await a.send(b'a SELECT INBOX\r\n')
+        await b.send(b'b SELECT INBOX\r\n')
+        log = []
+        case = dict(level='L3', scenario='two-sessions', backend=kind, messages=[list(m_) for m_ in msgs], log=log)
+        live = sorted(stored)
+        for _ in range(r.randint(2, 5)):
+            # B changes the mailbox behind A's back
+            for _ in range(r.randint(1, 3)):
+                u = r.choice(live)
+                x = r.random()
+                if x < 0.45 and len(live) > 1:
+                    cmdb = b'b UID STORE %d +FLAGS.SILENT (\\Deleted)\r\nb EXPUNGE\r\n' % u
+                    await b.send(b'b UID STORE %d +FLAGS.SILENT (\\Deleted)\r\n' % u)
+                    await b.send(b'b EXPUNGE\r\n')
+                    live.remove(u)
+                    log.append(['B', 'expunge', u])
+                else:
+                    await b.send(b'b UID STORE %d %sFLAGS (\\Flagged)\r\n' % (u, r.choice([b'+', b'-'])))
+                    log.append(['B', 'flag', u])
+            # A, not told yet, asks for everything
+            q = r.choice([b'a UID FETCH 1:* (BODY.PEEK[])', b'a UID FETCH 1:* (UID RFC822.SIZE BODY.PEEK[])', b'a FETCH 1:* (UID BODY.PEEK[])', b'a UID FETCH 1:* (RFC822.SIZE)',
+                          b'a UID FETCH 1:* (BODY.PEEK[]<0.5>)'])
+            out = await a.send(q + b'\r\n')
+            log.append(['A', q.decode()])
+            part.stat(f'{kind}:two-session-fetch')
+            if a.task.done():
+                part.stat(f'{kind}:connection-ended')
+                return
+            try:
+                resps = imapresp.parse(out)
+            except imapresp.Malformed:
+                part.stat(f'{kind}:two-session-unreadable')
+                continue
+            for resp in resps:
+                f = imapresp.fetch_items(resp)
+                if not f or b'UID' not in f[1]:
+                    continue
+                uid = int(f[1][b'UID'].val)
+                want = stored.get(uid)
+                if want is None or uid not in live:
+                    # a message another session has expunged meanwhile is no longer there to be returned (maildir answers with nothing): not this property's subject
+                    continue
+                for name, v in f[1].items():
+                    if not isinstance(v, imapresp.Tok):
+                        continue
+                    if name == b'BODY[]' and v.val != want:
+                        whose = [u for u, w in stored.items() if w == v.val]
+                        part.violation('monitor', f'{kind}: {q.decode()} with another session expunging and flagging: under UID {uid} came {v.val[:60]!r} ({len(v.val)} bytes), '
+                                       f'appended under that UID was {want[:60]!r} ({len(want)} bytes); these are the bytes of UID {whose}', case, signature='uid-content-crossed')
+                    if name == b'RFC822.SIZE' and int(v.val) != len(want):
+                        part.violation('monitor', f'{kind}: {q.decode()}: RFC822.SIZE {int(v.val)} under UID {uid}, the message appended under it has {len(want)} bytes', case,
+                                       signature='uid-size-crossed')
+                    if name == b'BODY[]<0>' and v.val != want[:5]:
+                        part.violation('monitor', f'{kind}: {q.decode()}: BODY[]<0.5> under UID {uid} is {v.val!r}, the message appended under it starts {want[:5]!r}', case,
+                                       signature='uid-content-crossed')
+            await a.send(b'a NOOP\r\n') if r.random() < 0.5 else None
+        part.case(key='two:' + kind + repr(log)[:300], nontrivial=True, sample=dict(scenario='two-sessions', log=log[:6]))
+        await a.eof()
+        await b.eof()
+    finally:
         if base:
             backends.rmtree(base)
 
@@ -335,6 +429,12 @@ def worker(job):
         for kind in ('dict', 'maildir'):
             with guarded(part, f'C03 L3 {kind}', dict(level='L3', backend=kind, seed=seed)):
                 asyncio.run(l3_backend(part, kind, msgs, random.Random(seed * 7 + 1)))
+        r2 = random.Random(seed * 7 + 2)
+        for k in range(max(2, n_l3 // 6)):
+            kind = 'dict' if k % 3 else 'maildir'
+            with guarded(part, f'C03 L3 two sessions {kind}', dict(level='L3', backend=kind, seed=seed, scenario='two-sessions')):
+                pool = [b for b in msgs if b.strip()]
+                asyncio.run(l3_two_sessions(part, kind, [bytes(b'X-N: %d\r\n' % j) + r2.choice(pool) for j in range(r2.randint(3, 6))], r2))
     return part.result()
 
 
